@@ -280,7 +280,7 @@ def _copy_layer_to_x_sparse(
                     chunks=chunks,
                     dtype=dtype)
                 if chunks is None:
-                    dst_grp[el] = src_dataset[()]
+                    dst_grp[el][()] = src_dataset[()]
                 else:
                     for i0 in range(0, src_dataset.shape[0], chunks[0]):
                         i1 = min(src_dataset.shape[0], i0+chunks[0])
